@@ -356,6 +356,21 @@ class Plain:
     self.__dict__.update(kw)
 
 
+class HalfCopyable:
+  """A value whose deep copy / pickling FAILS PART-WAY (it holds a lock), after
+  the copying machinery has already noted a half-made stand-in for it."""
+  _fsim_plain = True
+
+  def __init__(self, tok):
+    import _thread
+    self.tok = tok
+    self.items = [tok]
+    self.lock = _thread.allocate_lock()
+
+  def __repr__(self):
+    return f'<HalfCopyable {self.__dict__.get("tok")}>'
+
+
 class ConstObj:
   """An opaque constant registered with register_constant (by identity)."""
 
